@@ -33,8 +33,12 @@ def assume(a, m, ps):
         b = 4 + 10 * k
         f = a[b + 2:b + 10]
         A += [z3.ULE(a[b], 1), z3.ULT(a[b + 1], 6)]
-        A += [z3.Or(f[0] == 1, f[0] == 2), z3.ULE(f[1], 1), z3.Or(f[2] == 0, f[2] == 2), f[3] == 0, f[4] == 0, z3.ULE(f[5], 1),
-              f[6] == 0, f[7] == 1]
+        if m >= 3:
+            # three functions: the signature dimension is fixed (it is explored with one and two functions), slots stay symbolic
+            A += [f[0] == 1, f[1] == 0, f[2] == 0, f[3] == 0, f[4] == 0, f[5] == 0, f[6] == 0, f[7] == 1]
+        else:
+            A += [z3.Or(f[0] == 1, f[0] == 2), z3.ULE(f[1], 1), z3.Or(f[2] == 0, f[2] == 2), f[3] == 0, f[4] == 0, z3.ULE(f[5], 1),
+                  f[6] == 0, f[7] == 1]
     return A
 
 
